@@ -120,12 +120,20 @@ class PathGen:
             sel = [chain + [v[i]]] if isinstance(v, list) and -len(v) <= i < len(v) else []
             return ["i", i], sel
         if kind == "slice":
-            for _try in range(4):
-                a, b, c = (rng.choice([None, self.rint()]) for _ in range(3))
-                if c == 0:
-                    c = rng.choice([None, 1, -1, 2, -2])
-                if not (guided and isinstance(v, list) and v) or v[slice(a, b, c)]:
-                    break
+            if rng.random() < 0.15:
+                # boundary slices: explicit zeros are not "absent" bounds, empty selections are answers too
+                n = len(v) if isinstance(v, list) else rng.randint(0, 3)
+                a, b, c = rng.choice([(None, 0, None), (0, 0, None), (0, None, None), (None, 0, -1), (0, 0, -1),
+                                      (n, None, None), (None, n, None), (None, -n, None), (-n, None, None),
+                                      (n, 0, -1), (None, None, -1), (0, n, 1), (-n, n, None), (1, 1, None)])
+            else:
+                keep_empty = rng.random() < 0.25
+                for _try in range(4):
+                    a, b, c = (rng.choice([None, self.rint()]) for _ in range(3))
+                    if c == 0:
+                        c = rng.choice([None, 1, -1, 2, -2])
+                    if keep_empty or not (guided and isinstance(v, list) and v) or v[slice(a, b, c)]:
+                        break
             sel = [chain + [x] for x in v[slice(a, b, c)]] if isinstance(v, list) else []
             return ["s", a, b, c], sel
         if kind == "tuple":
@@ -274,10 +282,55 @@ class PathGen:
         return [rng.choice(["all", "any"]), [self.gen_arg(chain, pdepth) for _ in range(n)]]
 
 
+def _all_locs(v, prefix=()):
+    out = [prefix]
+    if isinstance(v, dict):
+        for k, x in v.items():
+            out.extend(_all_locs(x, prefix + (k,)))
+    elif isinstance(v, list):
+        for i, x in enumerate(v):
+            out.extend(_all_locs(x, prefix + (i,)))
+    return out
+
+
+def _node_at(v, loc):
+    for nm in loc:
+        v = v[nm]
+    return v
+
+
+def share_subtree(rng, doc):
+    """a document in which one container *object* sits at two positions (a reused defaults
+    dict, a YAML alias, `[[0] * 2] * 3`): still a finite JSON tree.  Returns the pair of
+    locations, or None; `doc` is changed in place (the second position holds a copy here —
+    the observer makes it the same object)."""
+    locs = _all_locs(doc)
+    srcs = [l for l in locs if l and isinstance(_node_at(doc, l), (dict, list))]
+    conts = [l for l in locs if isinstance(_node_at(doc, l), (dict, list))]
+    rng.shuffle(srcs)
+    for a in srcs:
+        hosts = [c for c in conts if c[:len(a)] != a]       # not inside the shared sub-tree: no cycle
+        if not hosts:
+            continue
+        host = rng.choice(hosts)
+        h = _node_at(doc, host)
+        copy_ = __import__("json").loads(__import__("json").dumps(_node_at(doc, a)))
+        if isinstance(h, dict):
+            k = rng.choice(KEYS + ["shared"])
+            h[k] = copy_
+            return [list(a), list(host) + [k]]
+        h.append(copy_)
+        return [list(a), list(host) + [len(h) - 1]]
+    return None
+
+
 def gen_query(rng, profile="all", pred_profile="mixed", api=None, with_src=None, maxlen=5):
     doc = gen_doc(rng)
     pg = PathGen(rng, profile, pred_profile)
+    share = share_subtree(rng, doc) if isinstance(doc, (dict, list)) and rng.random() < 0.1 else None
     sc = {"fam": "q", "doc": enc(doc)}
+    if share:
+        sc["share"] = share
     chain = [doc]
     if with_src is None:
         with_src = rng.random() < 0.25
